@@ -439,12 +439,34 @@ def desugar_context_managers(tree):
     return n
 
 
+NUMPY_METHOD_FORMS = ("argmax", "argmin")
+
+
+def numpy_function_forms(tree):
+    """`<x>.argmax()` / `<x>.argmin()` without arguments  ->  `np.argmax(<x>)` / `np.argmin(<x>)` (the same first-occurrence
+    reduction, spelled as a method); `<x>.size` of a one-dimensional carried array stays as it is"""
+    n = 0
+    for c in [x for x in ast.walk(tree) if isinstance(x, ast.Call)]:
+        if isinstance(c.func, ast.Attribute) and c.func.attr in NUMPY_METHOD_FORMS and not c.args and not c.keywords and \
+                not (isinstance(c.func.value, ast.Name) and c.func.value.id in ("np", "numpy", "pd")):
+            recv = c.func.value
+            c.func = ast.Attribute(value=ast.Name(id="np", ctx=ast.Load()), attr=c.func.attr, ctx=ast.Load())
+            c.args = [recv]
+            n += 1
+    if n:
+        from .frontend import set_parents
+        set_parents(tree)
+        ast.fix_missing_locations(tree)
+    return n
+
+
 def canonicalise(tree):
     """canonical form of every function of a module, in place: module-level literal constants propagated, comparisons oriented,
     branches normalised, single-use temporaries folded into their use"""
     n = propagate_module_constants(tree)
     n += desugar_context_managers(tree)
     n += fold_constants(tree)
+    n += numpy_function_forms(tree)
     n += orient_comparisons(tree)
     for fn in [x for x in ast.walk(tree) if isinstance(x, (ast.FunctionDef, ast.AsyncFunctionDef))]:
         n += normalise_branches(fn)
